@@ -2,7 +2,7 @@
 """Run seedcheck for every seed (or the ones given) against its property's check; write seeded/RESULTS.json and a table.
 usage: seedcampaign.py [-j N] [seed ...]"""
 import json, os, subprocess, sys, concurrent.futures, re
-EXTRA = {"C06-a": ["C07"], "C20-a": ["C34"], "C34-a": ["C20"], "C09-a": ["C13", "C30"], "C13-a": ["C09"], "C38-a": ["C07"], "C08-a": ["C07"], "C14-a": ["C08"], "C37-a": ["C08", "C07"], "C16-a": [], "C05-b": ["C06", "C13"], "C07-c": ["C08"], "C12-c": ["C06", "C05"], "C19-c": ["C13"], "C38-c": ["C06", "C07"], "C10-c": ["C16"], "C11-c": ["C16"], "C02-c": ["C13"]}
+EXTRA = {"C06-a": ["C07"], "C20-a": ["C34"], "C34-a": ["C20"], "C09-a": ["C13", "C30"], "C13-a": ["C09"], "C38-a": ["C07"], "C08-a": ["C07"], "C14-a": ["C08"], "C37-a": ["C08", "C07"], "C16-a": [], "C05-b": ["C06", "C13"], "C07-c": ["C08"], "C12-c": ["C06", "C05"], "C19-c": ["C13"], "C38-c": ["C06", "C07"], "C10-c": ["C16"], "C11-c": ["C16"], "C02-c": ["C13"], "C37-c": ["C30", "C23"], "C08-c": ["C15", "C09"], "C15-c": ["C09"], "C36-c": ["C11"]}
 args = sys.argv[1:]
 j = 2
 if args and args[0] == "-j":
